@@ -16,9 +16,10 @@ Import ListNotations.
 Open Scope Z_scope.
 
 (* the calls of the statement: issued without a session context (sid = 0),
-   no session life-cycle / maintenance / bulk call; reads and ListIndexes do
-   not target the system collection local.oplog, which the reference model
-   does not have *)
+   no session life-cycle / maintenance call; reads and ListIndexes do not
+   target the system collection local.oplog, which the reference model does
+   not have; bulk-write items are the ones the driver API builds (no sort, no
+   skip: `driver_op`) *)
 Definition no_session_call (c : call) : Prop :=
   match c with
   | CInsertOne sid _ _ | CInsertMany sid _ _ _
@@ -29,7 +30,8 @@ Definition no_session_call (c : call) : Prop :=
   | CDropColl sid _ | CDropDb sid _ => sid = 0
   | CFind sid h _ _ _ _ _ | CFindOne sid h _ _ _ _ | CCount sid h _ _ _
   | CDistinct sid h _ _ | CListIndexes sid h => sid = 0 /\ user_ns h = true
-  | CBulk _ _ _ _ | CStart _ | CCommit _ | CAbort _ | CEnd _ | CTrim _ | CExpire _ => False
+  | CBulk sid _ ops _ => sid = 0 /\ Forall driver_op ops
+  | CStart _ | CCommit _ | CAbort _ | CEnd _ | CTrim _ | CExpire _ => False
   end.
 
 Lemma mapM_map {A B C} (f : B -> res C) (g : A -> B) l :
@@ -231,6 +233,22 @@ Section RefineStep.
     R (mkD c' g' (ds_sessions ds)) s'.
   Proof. intros. apply mk_R; auto. Qed.
 
+  Lemma bulk_reply_rel ops : forall rs rs' i acc,
+    Forall2 (sum_rel tres_rel) rs rs' ->
+    bulk_reply ops rs i acc = s_bulk_reply ops rs' i acc.
+  Proof.
+    induction ops as [|op t IH]; intros rs rs' i acc H; [reflexivity|].
+    destruct H as [|r r' rs rs' Hr Hrs]; [reflexivity|].
+    destruct acc; try reflexivity. cbn [bulk_reply s_bulk_reply].
+    destruct r as [tr|e], r' as [sr|e']; cbn [sum_rel] in Hr; try contradiction.
+    - destruct Hr as [H1 [H2 H3]].
+      assert (L1 : len (t_matched tr) = len (sr_matched sr)) by (rewrite <- H1; symmetry; apply len_map).
+      assert (L2 : len (t_modified tr) = len (sr_modified sr)) by (rewrite <- H2; symmetry; apply len_map).
+      destruct op; rewrite ?L1, ?L2; try (apply IH; exact Hrs);
+        rewrite <- H3; destruct (t_upserted tr) as [sd|]; cbn [option_map]; apply IH; exact Hrs.
+    - subst e'. apply IH. exact Hrs.
+  Qed.
+
   (* ---------------------------------------------------------------- *)
   (* one call *)
 
@@ -363,6 +381,23 @@ Section RefineStep.
       + apply (txn_delete_refines matchf). exact Hok.
       + intros c' g' e. apply txn_delete_error_noop.
       + apply pick_del_rel.
+    - (* bulkWrite *)
+      destruct (existsb (fun op => match op with
+                                   | BReplace _ rp _ _ => first_key_dollar rp
+                                   | _ => false
+                                   end) ops).
+      + split; [reflexivity|apply R_self; exact Hinv].
+      + rewrite (use_write_0 ds _ Htok). cbv beta.
+        pose proof (txn_bulk_refines matchf applyf extractf now (ds_cat ds) (ds_gen ds) h ops ordered
+                      Hok Hu) as H.
+        destruct (txn_bulk matchf applyf extractf (ds_cat ds) (ds_gen ds) h ops ordered now)
+          as [[c' g'] r].
+        change (abs_cat (ds_cat ds) (ds_gen ds)) with (abs ds) in H.
+        destruct (s_valid h); cbn [negb].
+        * destruct (s_bulk matchf applyf extractf now (abs ds) h ops ordered) as [s' rs'].
+          destruct H as [Ha [Ho [Hk [Hd [rs [-> Hrs]]]]]].
+          split; cbn [fst snd]; [apply bulk_reply_rel; exact Hrs|apply mk_R; auto].
+        * destruct H as [-> [-> ->]]. split; cbn [fst snd]; [reflexivity|]. apply mk_R; auto.
     - (* createIndex *)
       rewrite (use_direct_0 ds _ Htok). cbv beta.
       pose proof (txn_create_index_refines matchf (ds_cat ds) (ds_gen ds) h name
